@@ -168,6 +168,11 @@ class StairsArray(ExtensionArray):
         for sf in with_steps[1:]:
             _assert_closeds_equal(with_steps[0], sf)
         closed = with_steps[0].closed if with_steps else self.data[0].closed
+        if not with_steps:
+            return Stairs(
+                initial_value=func([s.initial_value for s in self.data]) * 1,
+                closed=closed,
+            )
         index = pd.Index(
             np.unique(
                 np.concatenate(
